@@ -407,3 +407,412 @@ def with_inlined(units, unit_name, fname):
     out = dict(units)
     out[unit_name] = view
     return out
+
+
+# ---- general inlining of helpers that the pinned tree does not have -------------------------------------------------
+#
+# The rules are anchored on the functions of the pinned tree (cjsa/known_functions.json).  "Extract a helper" is the most
+# common refactoring there is; the code of a static function that the pinned tree does not have is analysed where it is
+# called: its body replaces the call (parameters bound to the arguments, its locals renamed per call site, its returns
+# turned into an assignment of the result and a jump behind the body).  Inlining preserves behaviour, so analysing the
+# inlined program is analysing the program; which helpers are inlined only decides how much the anchored rules get to see.
+# A call that stands where this cannot be done statement-wise (inside a loop condition, in the middle of an expression with
+# other effects, recursive helpers, helpers whose address is taken) is left alone and the helper stays in the unit.
+
+_SIMPLE_ARG = ('ref', 'int', 'char', 'float', 'str', 'sizeof')
+
+
+def _simple_arg(e):
+    e0 = strip_casts(e)
+    k = e0.get('k')
+    if k in _SIMPLE_ARG or const_val(e0) is not None:
+        return True
+    if k == 'un' and e0.get('op') in ('&', '*', '-', '!', '~'):
+        return _simple_arg(e0['e'])
+    if k == 'mem':
+        return _simple_arg(e0['b'])
+    if k == 'idx':
+        return _simple_arg(e0['b']) and _simple_arg(e0['i'])
+    if k == 'bin' and e0.get('op') in ('+', '-', '*', '==', '!=', '<', '>', '<=', '>=', '&', '|'):
+        return _simple_arg(e0['l']) and _simple_arg(e0['r'])
+    return False
+
+
+class _Inliner(object):
+    def __init__(self, u, known, max_nodes=400, max_sites=8):
+        self.u = u
+        self.known = set(known)
+        self.max_nodes = max_nodes
+        self.max_sites = max_sites
+        mx = 0
+        md = 0
+        for f in u.function_list:
+            if f.body is None:
+                continue
+            for x in walk_all(f.raw):
+                if isinstance(x.get('id'), int):
+                    mx = max(mx, x['id'])
+                if isinstance(x.get('d'), int):
+                    md = max(md, x['d'])
+        for g in u.globals:
+            if isinstance(g.get('d'), int):
+                md = max(md, g['d'])
+        self.next_id = mx + 1000000
+        self.next_d = md + 1000000
+        self.nlabel = 0
+        self.done = {}
+
+    def fresh_id(self):
+        self.next_id += 1
+        return self.next_id
+
+    def fresh_d(self):
+        self.next_d += 1
+        return self.next_d
+
+    # -- which helpers -----------------------------------------------------------------------------------------------
+    def candidates(self, fns):
+        taken = set()
+        ncalls = {}
+        for f in fns.values():
+            if f.body is None:
+                continue
+            callee_ids = set()
+            for c in f.calls():
+                cn = callee_name(c)
+                if cn in fns:
+                    ncalls[cn] = ncalls.get(cn, 0) + 1
+                    callee_ids.add(strip_casts(c['fn']).get('id'))
+            for x in f.nodes():
+                if x.get('k') == 'ref' and x.get('dk') == 'fn' and x.get('id') not in callee_ids:
+                    taken.add(x.get('n'))
+        for g in self.u.globals:
+            if 'init' in g:
+                for x in walk(g['init']):
+                    if x.get('k') == 'ref' and x.get('dk') == 'fn':
+                        taken.add(x.get('n'))
+        out = {}
+        for name, h in fns.items():
+            if name in self.known or not h.static or h.body is None or name in taken or not ncalls.get(name):
+                continue
+            if any(callee_name(c) == name for c in h.calls()):
+                continue
+            if len(h.nodes()) > self.max_nodes or ncalls[name] > self.max_sites:
+                continue
+            if any(x.get('k') in ('unknownstmt', 'stmtexpr') for x in walk_all(h.body)):
+                continue
+            if any(d.get('static') for d in h.locals()):
+                continue
+            out[name] = h
+        return out
+
+    # -- one call ----------------------------------------------------------------------------------------------------
+    def instantiate(self, H, call, target, mode, loc):
+        """statements that stand for `target = H(args)` (target may be None; mode 'return': H's returns become returns)"""
+        args = call.get('args', [])
+        if len(args) != len(H.params):
+            return None
+        written = set()
+        for x in H.nodes():
+            if x.get('k') == 'bin' and x.get('op') in ASSIGN_OPS and strip_casts(x['l']).get('k') == 'ref':
+                written.add(strip_casts(x['l']).get('d'))
+            if x.get('k') == 'un' and x.get('op') in ('&', 'pre++', 'pre--', 'post++', 'post--') and strip_casts(x['e']).get('k') == 'ref':
+                written.add(strip_casts(x['e']).get('d'))
+        sub = {}
+        pre = []
+        for p, a in zip(H.params, args):
+            if p['d'] not in written and _simple_arg(a) and _side_effect_free(a):
+                sub[p['d']] = strip_casts(a)
+            else:
+                nd = self.fresh_d()
+                decl = {'k': 'decl', 'id': self.fresh_id(), 'loc': loc,
+                        'decls': [{'d': nd, 'n': p['n'], 'ty': p['ty'], 'loc': loc, 'static': False, 'init': copy.deepcopy(a)}]}
+                for x in walk_all(decl['decls'][0]['init']):
+                    if 'id' in x:
+                        x['id'] = self.fresh_id()
+                pre.append(decl)
+                sub[p['d']] = {'k': 'ref', 'd': nd, 'dk': 'local', 'n': p['n'], 'ty': p['ty'], 'id': 0, 'loc': loc}
+        # rename the helper's locals
+        ren = {}
+        for d in H.locals():
+            ren[d['d']] = self.fresh_d()
+        self.nlabel += 1
+        end_label = '__inl%d_%s_end' % (self.nlabel, H.name)
+        se = _single_exit(H)
+        used_goto = [False]
+
+        def conv(node, top=False):
+            if isinstance(node, list):
+                return [conv(x) for x in node]
+            if not isinstance(node, dict):
+                return node
+            k = node.get('k')
+            if k == 'ref' and node.get('d') in sub:
+                arg = copy.deepcopy(sub[node['d']])
+                for x in walk_all(arg):
+                    if 'id' in x:
+                        x['id'] = self.fresh_id()
+                return arg
+            if k == 'return':
+                stmts = []
+                if mode == 'return':
+                    out = {kk: conv(v) for kk, v in node.items()}
+                    out['id'] = self.fresh_id()
+                    return out
+                if 'e' in node and target is not None:
+                    stmts.append(self.assign(target, conv(node['e']), loc))
+                elif 'e' in node and not _side_effect_free(node['e']):
+                    stmts.append(conv(node['e']))
+                if not (se is not None and top):
+                    used_goto[0] = True
+                    stmts.append({'k': 'goto', 'label': end_label, 'id': self.fresh_id(), 'loc': node.get('loc', loc)})
+                return {'k': 'compound', 'body': stmts, 'id': self.fresh_id(), 'loc': node.get('loc', loc)}
+            out = {}
+            for kk, v in node.items():
+                out[kk] = conv(v)
+            if 'id' in out:
+                out['id'] = self.fresh_id()
+            if k == 'ref' and out.get('d') in ren:
+                out['d'] = ren[out['d']]
+            if 'decls' in out and k == 'decl':
+                for d in out['decls']:
+                    if d.get('d') in ren:
+                        d['d'] = ren[d['d']]
+            if k in ('label', 'goto') and 'label' in out:
+                out['label'] = '__inl%d_%s' % (self.nlabel, out['label'])
+            if k == 'mem' and out.get('arrow'):
+                b = strip_casts(out['b'])
+                if b.get('k') == 'un' and b.get('op') == '&':
+                    out['b'] = b['e']
+                    out['arrow'] = False
+            if k == 'un' and out.get('op') == '*':
+                b = strip_casts(out['e'])
+                if b.get('k') == 'un' and b.get('op') == '&':
+                    return b['e']
+            return out
+        body_in = list(H.body.get('body', []))
+        body = []
+        for i, s in enumerate(body_in):
+            last = (i == len(body_in) - 1)
+            body.append(conv(s, top=last))
+        if used_goto[0]:
+            body.append({'k': 'label', 'label': end_label, 'id': self.fresh_id(), 'loc': loc,
+                         'sub': {'k': 'null', 'id': self.fresh_id(), 'loc': loc}})
+        return pre + [{'k': 'compound', 'body': body, 'id': self.fresh_id(), 'loc': loc, 'inlined': H.name}]
+
+    def assign(self, target, value, loc):
+        t = copy.deepcopy(target)
+        for x in walk_all(t):
+            if 'id' in x:
+                x['id'] = self.fresh_id()
+        return {'k': 'bin', 'op': '=', 'l': t, 'r': value, 'id': self.fresh_id(), 'loc': loc, 'ty': strip_casts(target).get('ty')}
+
+    # -- statements that contain a call --------------------------------------------------------------------------------
+    def expand(self, stmt, cands):
+        """replacement statement list for stmt, or None"""
+        k = stmt.get('k')
+        loc = stmt.get('loc', [0, 0])
+
+        def helper_call(e):
+            e0 = strip_casts(e)
+            if e0.get('k') == 'call' and callee_name(e0) in cands and all(_side_effect_free(a) for a in e0.get('args', [])):
+                return e0
+            return None
+        if k == 'return' and 'e' in stmt:
+            c = helper_call(stmt['e'])
+            if c is not None:
+                H = cands[callee_name(c)]
+                return self.note(H, self.instantiate(H, c, None, 'return', loc))
+            return None
+        if k == 'decl' and len(stmt.get('decls', [])) == 1 and 'init' in stmt['decls'][0]:
+            d = stmt['decls'][0]
+            c = helper_call(d['init'])
+            if c is not None and not d.get('static'):
+                H = cands[callee_name(c)]
+                d2 = {kk: v for kk, v in d.items() if kk != 'init'}
+                decl = {'k': 'decl', 'id': self.fresh_id(), 'loc': loc, 'decls': [d2]}
+                target = {'k': 'ref', 'd': d['d'], 'dk': 'local', 'n': d['n'], 'ty': d['ty'], 'id': 0, 'loc': loc}
+                inl = self.instantiate(H, c, target, 'value', loc)
+                return self.note(H, None if inl is None else [decl] + inl)
+            return None
+        if k == 'do' and self.has_own_continue(stmt.get('body')):
+            return None
+        if k in ('if', 'do'):
+            # if (h(..)) / if (!h(..)) / if (h(..) == c): the call is evaluated exactly once, first;
+            # do { .. } while (h(..)): the call is evaluated once per iteration, after the body (no `continue` in the body)
+            cond = stmt['c']
+            e = strip_casts(cond)
+            neg = 0
+            inner = e
+            while inner.get('k') == 'un' and inner.get('op') == '!':
+                inner = strip_casts(inner['e'])
+            call = None
+            if inner.get('k') == 'bin' and inner.get('op') in ('==', '!=', '<', '>', '<=', '>='):
+                if helper_call(inner['l']) is not None and const_val(inner['r']) is not None or \
+                        (helper_call(inner['l']) is not None and strip_casts(inner['r']).get('null')):
+                    call = helper_call(inner['l'])
+                elif helper_call(inner['r']) is not None and (const_val(inner['l']) is not None or strip_casts(inner['l']).get('null')):
+                    call = helper_call(inner['r'])
+            else:
+                call = helper_call(inner)
+            if call is None:
+                return None
+            H = cands[callee_name(call)]
+            nd = self.fresh_d()
+            tname = '__%s_result%d' % (H.name, self.nlabel + 1)
+            tdecl = {'k': 'decl', 'id': self.fresh_id(), 'loc': loc,
+                     'decls': [{'d': nd, 'n': tname, 'ty': H.ret, 'loc': loc, 'static': False}]}
+            tref = {'k': 'ref', 'd': nd, 'dk': 'local', 'n': tname, 'ty': H.ret, 'id': 0, 'loc': loc}
+            inl = self.instantiate(H, call, tref, 'value', loc)
+            if inl is None:
+                return None
+
+            def swap(node):
+                if isinstance(node, list):
+                    return [swap(x) for x in node]
+                if not isinstance(node, dict):
+                    return node
+                if node is call:
+                    r = dict(tref)
+                    r['id'] = self.fresh_id()
+                    return r
+                return {kk: swap(v) for kk, v in node.items()}
+            new_if = dict(stmt)
+            new_if['c'] = swap(cond)
+            if k == 'do':
+                new_if['body'] = {'k': 'compound', 'body': [stmt['body']] + inl, 'id': self.fresh_id(), 'loc': loc}
+                return self.note(H, [tdecl, new_if])
+            return self.note(H, [tdecl] + inl + [new_if])
+        # expression statement
+        e = stmt
+        if e.get('k') == 'cast':
+            e = strip_casts(e)
+        if e.get('k') == 'call':
+            c = helper_call(e)
+            if c is not None:
+                H = cands[callee_name(c)]
+                return self.note(H, self.instantiate(H, c, None, 'value', loc))
+        if e.get('k') == 'bin' and e.get('op') == '=' and _side_effect_free(e['l']):
+            c = helper_call(e['r'])
+            if c is not None:
+                H = cands[callee_name(c)]
+                return self.note(H, self.instantiate(H, c, e['l'], 'value', loc))
+        return None
+
+    def has_own_continue(self, body):
+        stack = [body]
+        while stack:
+            x = stack.pop()
+            if isinstance(x, dict):
+                if x.get('k') == 'continue':
+                    return True
+                if x.get('k') in ('while', 'do', 'for'):
+                    continue
+                stack.extend(v for v in x.values() if isinstance(v, (dict, list)))
+            elif isinstance(x, list):
+                stack.extend(x)
+        return False
+
+    def note(self, H, res):
+        if res is not None:
+            self.done[H.name] = self.done.get(H.name, 0) + 1
+        return res
+
+
+def inline_new_helpers(u, known):
+    """view of u with the static helpers that are not in `known` inlined where they are called (see above); u if none"""
+    inl = _Inliner(u, known)
+    cur = u
+    total = {}
+    for _round in range(4):
+        fns = cur.functions
+        cands = inl.candidates(fns)
+        if not cands:
+            break
+        inl.done = {}
+        new_raw = {}
+        for f in cur.function_list:
+            if f.body is None or not any(callee_name(c) in cands for c in f.calls()):
+                continue
+            # a compound's statement list is a statement position; mark each list as it is entered
+            def rw(node):
+                if isinstance(node, dict):
+                    out = {}
+                    for k, v in node.items():
+                        if isinstance(v, list) and k == 'body' and node.get('k') == 'compound':
+                            lst = []
+                            for s in v:
+                                rep = inl.expand(s, cands) if isinstance(s, dict) else None
+                                if rep is not None:
+                                    lst.extend(rep)        # (calls inside the inlined body are picked up by the next round)
+                                else:
+                                    lst.append(rw(s))
+                            out[k] = lst
+                        elif isinstance(v, dict) and ((k in ('t', 'e') and node.get('k') == 'if') or
+                                                      (k == 'body' and node.get('k') in ('while', 'do', 'for', 'switch')) or
+                                                      (k == 'sub' and node.get('k') in ('label', 'case', 'default'))):
+                            rep = inl.expand(v, cands)
+                            if rep is not None:
+                                out[k] = {'k': 'compound', 'body': rep, 'id': inl.fresh_id(), 'loc': v.get('loc', [0, 0])}
+                            else:
+                                out[k] = rw(v)
+                        else:
+                            out[k] = rw(v)
+                    return out
+                if isinstance(node, list):
+                    return [rw(x) for x in node]
+                return node
+            before = dict(inl.done)
+            body = rw(f.body)
+            if inl.done != before:
+                raw = dict(f.raw)
+                raw['body'] = body
+                raw['inlined'] = sorted(set(f.raw.get('inlined', [])) | {n for n in inl.done if inl.done[n] != before.get(n, 0)})
+                new_raw[f.name] = raw
+        if not new_raw:
+            break
+        for n_, c_ in inl.done.items():
+            total[n_] = total.get(n_, 0) + c_
+        view = copy.copy(cur)
+        for attr in [a for a in vars(view) if a.startswith('_')]:
+            delattr(view, attr)
+        view.functions = {}
+        view.function_list = []
+        for f in cur.function_list:
+            nf = Function(view, new_raw[f.name]) if f.name in new_raw else f
+            view.functions[nf.name] = nf
+            view.function_list.append(nf)
+        # helpers without a remaining call disappear
+        still = set()
+        for f in view.function_list:
+            if f.body is None:
+                continue
+            for c in f.calls():
+                still.add(callee_name(c))
+        gone = [n for n in cands if n not in still]
+        if gone:
+            view.function_list = [f for f in view.function_list if f.name not in gone]
+            view.functions = {f.name: f for f in view.function_list}
+        view.by_decl = {fn.d: fn for fn in view.function_list}
+        view.inlined_helpers = dict(total)
+        cur = view
+    return cur
+
+
+_inl_cache = {}
+
+
+def inlined(units):
+    """units with the helpers the pinned tree does not have inlined where they are called; the rules that look at one function
+    at a time (append idiom, literal triples, comma loops, path buffers, ...) ask for this view, the engines that follow calls
+    themselves (ownership, bounds, effects) keep the program as written"""
+    from .extract import known_functions
+    out = {}
+    changed = False
+    for name, u in units.items():
+        key = id(u)
+        if key not in _inl_cache:
+            _inl_cache[key] = (u, inline_new_helpers(u, known_functions().get(name, ())))
+        out[name] = _inl_cache[key][1]
+        changed = changed or out[name] is not u
+    return out if changed else units
